@@ -843,13 +843,13 @@ C10 lane model (`Model/AvxNtt.lean`, `BitVec 64` intrinsics) computes the same v
 | HAL step | C10 lemma used | range needed | provided by |
 |---|---|---|---|
 | `b_from_znx64[_masked]` | `Avx.Ntt.bFromZnx64_eq_ref` | none (all `i64`) | — |
-| `ntt_avx2` | `Avx.Ntt.nttAvx_real` | none (all `u64`) | table entries are `u64` (`fitsTable`, hypothesis) |
+| `ntt_avx2` | `Avx.Ntt.nttAvx_real` | none (all `u64`) | its hypothesis `fitsTable` (table entries are `u64`) proved here: `nttTable_fits` |
 | `c_from_b_avx2`, `pack_left` | `Avx.Ntt.barrett_eq_mod`, `reduceB_toNat` (C10) + `cFromB_eq_ref_wide` (here) | none (all `u64`) | `2^32 mod Q[k] < 2^28` |
 | `pairwise_pack_left` | `reduceB_toNat`, `condSub_toNat` (C10) + `pairwisePackLeft_eq_ref_wide` (here) | none (all `u64`) | `2^32 mod Q[k] < 2^28` |
 | `pairwise_pack_right` | `C10.NttAvx.ntt120_avx_pairwise_pack_right_eq_ref` | none (wrapping `u32` sum) | — |
 | `bbc` 1col / x2 / 2cols | `Avx.Ntt.bbcLane_eq_ref` | none (`< 2^24` rows of any `u64`) | — |
 | lazy add / sub / negate | `C10.NttAvx.ntt120_avx_lazy_lanes_all_inputs` (intrinsics = `addBbbAvxK` …, all inputs; SAT-backed, C10's axioms) | `x < 2·Q_SHIFTED` for `addBbbAvxK = addBbbK` | `ntt120_hal_compositions` / `ntt120_lazy_range_invariant` (here; `AvxBridge.avx_lazy_on_reachable` composes the two) |
-| `intt_avx2` | `Avx.Ntt.inttAvx_real` | none | `fitsTable` (hypothesis) |
+| `intt_avx2` | `Avx.Ntt.inttAvx_real` | none | `fitsTable`: `inttTable_fits` |
 | `b_to_znx128_avx2` | `Avx.Ntt.bToZnx128Avx_eq_ref` | `x < Q·2^33` | `inttK_real_bound` + `primes30_transform_ranges` |
 
 Since the x2-block / column layouts are shared by the two back ends, the AVX2 pipelines store the reference pipelines' bits, and
@@ -870,15 +870,23 @@ theorem ntt120avx_prepare_all_inputs (k : Nat) (hk : k < 4) (x : BitVec 64) :
   ⟨AvxBridge.avx_c_from_b_lane_eq_ref k hk x, AvxBridge.avx_pack_left_lane_eq_ref k hk x,
    fun y => AvxBridge.avx_pairwise_pack_left_lane_eq_ref k hk x y⟩
 
+/-- the hypothesis `fitsTable` of C10's whole-transform theorems holds for every table the constructors return (all three prime
+sets, every `n`): `wu64`, `maskOf`, `pack_omega`, `modq_pow` produce 64-bit words and the bit-size assertions bound `half_bs` -/
+theorem ntt120_tables_are_u64 (P : PrimeSet) (hP : P ∈ [primes29, primes30, primes31]) (k n : Nat) (hk : k < 4) (t ti : TableK)
+    (ht : nttTableK P k n = .ok t) (hti : inttTableK P k n = .ok ti) :
+    Avx.Ntt.fitsTable t = true ∧ Avx.Ntt.fitsTable ti = true :=
+  ⟨nttTable_fits P k n t ht (reduc_fits P hP k hk).1 (reduc_fits P hP k hk).2.1 (reduc_fits P hP k hk).2.2,
+   inttTable_fits P k n ti hti (reduc_fits P hP k hk).1 (reduc_fits P hP k hk).2.1 (reduc_fits P hP k hk).2.2⟩
+
 /-- `vec_znx_dft_apply` on NTT120Avx: the stored lane is the reference lane and represents the coefficient limb -/
 theorem ntt120avx_dft_lane (k j : Nat) (hk : k < 4) (hj1 : 1 ≤ j) (hj : j ≤ 16) (t : TableK)
-    (ht : nttTableK primes30 k (2 ^ j) = .ok t) (hf : Avx.Ntt.fitsTable t = true) (split : Nat) (a : Poly) (ha : PolyOK j a) :
+    (ht : nttTableK primes30 k (2 ^ j) = .ok t) (split : Nat) (a : Poly) (ha : PolyOK j a) :
     Avx.Ntt.tn (Avx.Ntt.nttAvx (Avx.Ntt.redCOf t.reduc) (t.levels.map Avx.Ntt.levelCOf) split
         (a.map (fun x => Avx.Ntt.bFromZnx64 (BitVec.ofInt 64 x) (BitVec.ofNat 64 (oq (primes30.qs.getD k 1))))))
       = nttK t (a.map (fun x => bFromU64K (primes30.qs.getD k 1) (asU64 x))) ∧
     Rep primes30 k j (Avx.Ntt.tn (Avx.Ntt.nttAvx (Avx.Ntt.redCOf t.reduc) (t.levels.map Avx.Ntt.levelCOf) split
         (a.map (fun x => Avx.Ntt.bFromZnx64 (BitVec.ofInt 64 x) (BitVec.ofNat 64 (oq (primes30.qs.getD k 1))))))) a :=
-  ⟨AvxBridge.avx_dft_lane_eq_ref k j hk hj1 hj t ht hf split a ha.1, AvxBridge.avx_dft_lane_rep k j hk hj1 hj t ht hf split a ha⟩
+  ⟨AvxBridge.avx_dft_lane_eq_ref k j hk hj1 hj t ht split a ha.1, AvxBridge.avx_dft_lane_rep k j hk hj1 hj t ht split a ha⟩
 
 /-- every `bbc` product on NTT120Avx (`svp_apply`, `vmp_apply`, `cnv_apply`): the AVX2 lane is `bbcK` on the same rows -/
 theorem ntt120avx_bbc_lane (k : Nat) (hk : k < 4) (rows : List (BitVec 64 × BitVec 64)) (hell : rows.length < 2 ^ 24) :
@@ -890,7 +898,7 @@ theorem ntt120avx_bbc_lane (k : Nat) (hk : k < 4) (rows : List (BitVec 64 × Bit
 /-- `vec_znx_idft_apply` on NTT120Avx, coefficient `i`, for EVERY DFT-domain content: `intt_avx2` + `b_to_znx128_avx2` give the
 reference's coefficient (`intt_ref` + `b_to_znx128_ref`) -/
 theorem ntt120avx_idft_coeff (j : Nat) (hj1 : 1 ≤ j) (hj : j ≤ 16) (t : Nat → TableK)
-    (ht : ∀ k, k < 4 → inttTableK primes30 k (2 ^ j) = .ok (t k)) (hf : ∀ k, k < 4 → Avx.Ntt.fitsTable (t k) = true)
+    (ht : ∀ k, k < 4 → inttTableK primes30 k (2 ^ j) = .ok (t k))
     (jj : Nat) (hjj : jj ≤ j) (cs : Nat → List (List (BitVec 64))) (hc : ∀ k, k < 4 → ∀ c ∈ cs k, c.length = 2 ^ jj)
     (hlen : ∀ k, k < 4 → (cs k).flatten.length = 2 ^ j) (i : Nat) (hi : i < 2 ^ j) (x : Avx.V4)
     (hx0 : x.l0 = (Avx.Ntt.inttAvx (Avx.Ntt.redCOf (t 0).reduc) ((t 0).levels.map Avx.Ntt.levelCOf) jj (cs 0)).getD i 0#64)
@@ -900,7 +908,7 @@ theorem ntt120avx_idft_coeff (j : Nat) (hj1 : 1 ≤ j) (hj : j ≤ 16) (t : Nat 
     Avx.Ntt.bToZnx128AvxCoef x Avx.Ntt.qV Avx.Ntt.muV Avx.Ntt.p32V Avx.Ntt.p16V Avx.Ntt.crtV Avx.Ntt.hiV Avx.Ntt.midV Avx.Ntt.loV (bigQ primes30)
       = bToZnx128Core primes30 ((inttK (t 0) (Avx.Ntt.tn (cs 0).flatten)).getD i 0) ((inttK (t 1) (Avx.Ntt.tn (cs 1).flatten)).getD i 0)
           ((inttK (t 2) (Avx.Ntt.tn (cs 2).flatten)).getD i 0) ((inttK (t 3) (Avx.Ntt.tn (cs 3).flatten)).getD i 0) :=
-  AvxBridge.avx_idft_coeff_eq_ref j hj1 hj t ht hf jj hjj cs hc hlen i hi x hx0 hx1 hx2 hx3
+  AvxBridge.avx_idft_coeff_eq_ref j hj1 hj t ht jj hjj cs hc hlen i hi x hx0 hx1 hx2 hx3
 
 /-! non-vacuity: the executable HAL pipelines on concrete columns, against the specification functions -/
 
